@@ -6,14 +6,16 @@ SPEC = dict(
     level_text="Every return value of Put/Get/Delete/Clear/Size/Capacity/Stats/Keys/CleanupExpired of cache.LRUCache (and of "
                "cache.SearchCache on a share of the histories) is compared step by step with a reference model over tens of thousands of "
                "random histories covering every listed capacity (non-positive ones included, the default of 100 observed by filling 101+ "
-               "keys), unlimited / long / already elapsed lifetimes and pools of 2-8 keys. Expiry is decided on virtual time only. "
+               "keys), unlimited / long / already elapsed lifetimes and pools of 2-8 keys; a few histories run for 15-75 thousand operations on one "
+               "instance, a few use capacities of 1024-2200 with a scripted fill, ageing and mass removal (deletion or sweep) before the random part; "
+               "one stored value in three is the nil interface, a typed nil, an empty string or slice, zero or false. Expiry is decided on virtual time only. "
                "Exploration of histories, not a proof over all of them.",
     level_note="Trusted: the reference model, the verif-tagged hook (*LRUCache).VerifAdvance (ages all entries by d under the cache lock) and "
                "(*SearchCache).VerifLRU, the Go runtime. Single-goroutine histories only (concurrency is another property).",
     engines=[dict(name="lrumodel", shards=T(16, 16), timeout=T(300, 3000))],
     rule="case = one history: (kind, capacity, lifetime regime, key pool, 50-400 random operations [400-900 for the default-capacity fill]) "
          "followed by a closing audit (statistics, then a lookup of every pool key); kinds: LRUCache with 2-8 keys (~91%), LRUCache with a "
-         "non-positive capacity and 101-130 keys (~2%), SearchCache with query/options keys in case / white-space variants (~7%); plus one "
+         "non-positive capacity and 101-130 keys (~2%), SearchCache with query/options keys in ASCII-case variants (~7%); plus one "
          "scripted check per shard of cache.NewManager()'s search cache against constants.DefaultCacheCapacity / DefaultCacheTTL. "
          "evaluations = histories (paths.ops = operations). Non-trivial = a distinct history (hash of seed, shard, index) in which at least "
          "one capacity eviction or one expiry removal happened. `states` = number of distinct model states visited (hash of requested "
@@ -24,10 +26,10 @@ SPEC = dict(
          "statement does not demand a complete sweep).",
     floors=T({"evaluations": 15000, "distinct_nontrivial": 8000, "ops": 2000000, "evictions": 100000, "expiry-miss": 50000,
               "latitude-window-lookups": 5000, "sweeps": 50000, "clear": 10000, "default-capacity": 100, "searchcache-ops": 100000,
-              "manager-capacity": 16, "manager-ttl": 16, "histories-lru-long": 15},
+              "manager-capacity": 16, "manager-ttl": 16, "histories-lru-long": 15, "histories-lru-large": 15, "puts-of-nil-and-zero-values": 100000},
              {"evaluations": 400000, "distinct_nontrivial": 200000, "ops": 50000000, "evictions": 2500000, "expiry-miss": 1250000,
               "latitude-window-lookups": 125000, "sweeps": 1250000, "clear": 250000, "default-capacity": 2500, "searchcache-ops": 2500000,
-              "manager-capacity": 16, "manager-ttl": 16, "histories-lru-long": 800}),
+              "manager-capacity": 16, "manager-ttl": 16, "histories-lru-long": 800, "histories-lru-large": 800, "puts-of-nil-and-zero-values": 5000000}),
     assumptions=[
         "virtual time: every advance is a multiple of 10 s and every lifetime is 5 s off that grid (1h0m5s, 1m5s; the manager check probes "
         "DefaultCacheTTL -5 s / +5 s), so the real micro-seconds elapsed during a history cannot change an expiry decision; a history "
